@@ -279,6 +279,23 @@ retry:
         if (check_status == status::OK_RETRY_AFTER_FB) {
             goto retry; // NOLINT
         }
+        if (!right_to_left && initial_size_of_tuple_list != 0) {
+            /**
+             * The keys delivered before entering this border must all be
+             * smaller than the keys of this border. That can be false if the
+             * border this scan came from was emptied and unlinked meanwhile:
+             * this border then also covers its range and may have received
+             * keys at or below the ones already delivered. The position of
+             * the scan is stale, so read this (sub)tree again.
+             */
+            const std::string& last_key =
+                    std::get<0>(tuple_list[initial_size_of_tuple_list - 1]);
+            if (kl > sizeof(key_slice_type) ? full_key < last_key
+                                            : full_key <= last_key) {
+                clean_up_tuple_list_nvc();
+                return status::OK_RETRY_FROM_ROOT;
+            }
+        }
         if (kl > sizeof(key_slice_type)) {
             std::string_view arg_l_key;
             scan_endpoint arg_l_end{};
